@@ -15,6 +15,7 @@ package sio
 import (
 	"context"
 	"encoding/json"
+	"fmt"
 
 	"github.com/Comcast/sheens/core"
 	"github.com/Comcast/sheens/crew"
@@ -53,6 +54,12 @@ func AsCrewOp(msg interface{}) (*CrewOp, error) {
 
 // DoOp executes the given CrewOp.
 func (c *Crew) DoOp(ctx context.Context, op *CrewOp) error {
+	for mid, m := range op.Update {
+		if m == nil {
+			return fmt.Errorf("no machine given for '%s'", mid)
+		}
+	}
+
 	for mid, m := range op.Update {
 		c.Logf("Crew.Do Update %s", mid)
 		if err := c.SetMachine(ctx, mid, m.SpecSource, m.State); err != nil {
